@@ -53,6 +53,8 @@ pub struct State {
     /// native mode: a submitted operation did not complete in time (a loaded machine: fsync on a
     /// busy disk) — the case is inconclusive and is abandoned, it is NOT a finding
     pub aborted: bool,
+    /// native mode: how often a close had to wait for an operation in flight on the same resource
+    pub settled: usize,
 }
 
 #[derive(Clone)]
@@ -303,6 +305,8 @@ pub struct WrapBackend {
     pub sh: BShared,
     pub dir: std::path::PathBuf,
     buffered: HashMap<ProcessId, EffectResult>,
+    /// operations submitted to the ring and not yet collected: requester -> resource id
+    in_flight: HashMap<ProcessId, ResourceId>,
 }
 
 impl WrapBackend {
@@ -310,7 +314,37 @@ impl WrapBackend {
         let inner = quiver_io::NativeEffectBackend::new(64).ok()?;
         std::fs::create_dir_all(&dir).ok()?;
         sh.lock().native = true;
-        Some(WrapBackend { inner, sh, dir, buffered: HashMap::new() })
+        Some(WrapBackend { inner, sh, dir, buffered: HashMap::new(), in_flight: HashMap::new() })
+    }
+
+    /// Before `rid` is closed: let every operation the kernel still has in flight on it finish.
+    /// The id-level description (and the model) complete a submitted operation with the outcome
+    /// fixed at submission; in the real kernel an fsync / read / write that io_uring has handed to a
+    /// worker thread resolves its descriptor only when the worker runs, so a `close` that wins that
+    /// race turns the completion into EBADF. Which one wins is real-time scheduling inside the
+    /// kernel (seen only on a loaded machine), not something a verdict may depend on: the wrapper
+    /// picks the order "operation first, then close", which is one of the legal ones.
+    fn settle(&mut self, rid: ResourceId) {
+        let waiting: Vec<ProcessId> = self.in_flight.iter().filter(|(_, r)| **r == rid).map(|(p, _)| *p).collect();
+        if waiting.is_empty() {
+            return;
+        }
+        self.sh.lock().settled += 1;
+        let start = std::time::Instant::now();
+        loop {
+            for (pid, r) in self.inner.process_completions() {
+                self.in_flight.remove(&pid);
+                self.buffered.insert(pid, r);
+            }
+            if waiting.iter().all(|p| self.buffered.contains_key(p)) {
+                return;
+            }
+            if start.elapsed().as_millis() > 20000 {
+                self.sh.lock().aborted = true;
+                return;
+            }
+            std::thread::sleep(std::time::Duration::from_micros(30));
+        }
     }
 
     fn map_path(&self, path: &[u8], is_dir: bool) -> Vec<u8> {
@@ -346,7 +380,17 @@ impl EffectBackend for WrapBackend {
             NativeEffect::Stat { path } => NativeEffect::Stat { path: self.map_path(&path, false) },
             other => other,
         };
+        if matches!(effect, NativeEffect::FileClose { .. } | NativeEffect::ReadDirClose { .. })
+            && let Some(r) = rid
+        {
+            self.settle(r);
+        }
         let reply = self.inner.execute(pid, mapped);
+        if matches!(reply, Ok(None))
+            && let Some(r) = rid
+        {
+            self.in_flight.insert(pid, r);
+        }
         let mut s = self.sh.lock();
         let creating = matches!(effect, NativeEffect::FileOpen { .. } | NativeEffect::ReadDirOpen { .. });
         let closing = matches!(effect, NativeEffect::FileClose { .. } | NativeEffect::ReadDirClose { .. });
@@ -399,6 +443,7 @@ impl EffectBackend for WrapBackend {
         let start = std::time::Instant::now();
         loop {
             for (pid, r) in self.inner.process_completions() {
+                self.in_flight.remove(&pid);
                 self.buffered.insert(pid, r);
             }
             if self.buffered.len() >= want {
@@ -431,6 +476,7 @@ impl EffectBackend for WrapBackend {
     }
 
     fn close_resource(&mut self, resource_id: ResourceId) {
+        self.settle(resource_id);
         {
             let mut s = self.sh.lock();
             let effective = s.open.remove(&resource_id);
